@@ -3,7 +3,7 @@ CONSTANTS
   Mode = "wf"
   Gen = "iter"
   Dev = {}
-  LastBy = "index"
+  LastBy = "identity"
   MaxLines = 4
   MaxDepth = 4
   MaxBlank = 1
